@@ -3,6 +3,7 @@ package main
 // Calls: builtins, native models, contract calls, inlining, havoc.
 
 import (
+	"fmt"
 	"go/types"
 	"regexp"
 	"strings"
@@ -516,7 +517,14 @@ func (fr *Frame) callStatic(fn *ssa.Function, bind []Val, args []Val, c *ssa.Cal
 		// caller-side obligations anchored to this callee (atcall clauses of the function being verified)
 		for _, ac := range vc.fc.AtCalls {
 			if ac.Pat.MatchString(key) {
-				g := vc.evalClause(fr, ac.Clause, st, vc.entry, nil)
+				// arg0, arg1, ...: the values passed at this call site (receiver first for a method)
+				extra := map[string]TV{}
+				for i, a := range args {
+					if i < len(fn.Params) && a != nil {
+						extra[fmt.Sprintf("arg%d", i)] = TV{a, fn.Params[i].Type()}
+					}
+				}
+				g := vc.evalClause(fr, ac.Clause, st, vc.entry, extra)
 				vc.oblige(st, "requires", fr.name("atcall."+ac.Clause.Name+"@"+shortPos(pos)), pos, "at every call of "+ac.Pat.String()+": "+ac.Clause.Src, g, ac.Clause.Props)
 				if vc.atCallSeen == nil {
 					vc.atCallSeen = map[string]int{}
